@@ -199,9 +199,11 @@ func (m *UnboundedSegmentedMailbox) Dequeue() *ReceiveContext {
 		if next == nil {
 			return nil
 		}
-		// recycle old head
+		// recycle old head. Its next link is left intact (newSegment resets it on
+		// reuse): clearing it here would let a producer that is still inside
+		// newSegment for this former tail succeed with CAS(next, nil, newSeg) on the
+		// retired segment and move tail behind it, splitting the list.
 		m.head.Store(next)
-		seg.next.Store(nil)
 		segmentPool.Put(seg)
 		seg = next
 	}
